@@ -14,7 +14,7 @@ package roundrobin
 //@ axiom wgcd_one: forall r *RoundRobin :: len(r.servers) >= 1 ==> wgcd(r, 1) == r.servers[0].weight
 //@ axiom wgcd_step: forall r *RoundRobin, k int :: 1 < k && k <= len(r.servers) ==> wgcd(r, k) == GCD(wgcd(r, k-1), r.servers[k-1].weight)
 
-//@ pred poolOK(r *RoundRobin) = forall i int :: 0 <= i && i < len(r.servers) ==> r.servers[i] != nil && r.servers[i].weight >= 0
+//@ pred poolOK(r *RoundRobin) = forall i int :: 0 <= i && i < len(r.servers) ==> r.servers[i] != nil && allocated(r.servers[i]) && r.servers[i].weight >= 0 && r.servers[i].url != nil && allocated(r.servers[i].url)
 //@ pred iterOK(r *RoundRobin) = (r.index == -1 && r.currentWeight == 0) || (0 <= r.index && r.index < len(r.servers) && r.currentWeight >= 1 && r.servers[r.index].weight >= r.currentWeight)
 //@ pred isMax(r *RoundRobin, m int) = (forall i int :: 0 <= i && i < len(r.servers) ==> r.servers[i].weight <= m) && (exists j int :: 0 <= j && j < len(r.servers) && r.servers[j].weight == m)
 //@ pred below(r *RoundRobin, lo int, hi int, c int) = forall k int :: lo < k && k < hi ==> r.servers[k].weight < c
@@ -22,11 +22,19 @@ package roundrobin
 //@ pred succA(r *RoundRobin, i0 int, c0 int, i1 int, c1 int) = 0 <= i0 && i0 < i1 && i1 < len(r.servers) && c1 == c0 && r.servers[i1].weight >= c0 && below(r, i0, i1, c0)
 //@ pred succB(r *RoundRobin, i0 int, c0 int, i1 int, c1 int, g int, m int) = (i0 == -1 || below(r, i0, len(r.servers), c0)) && c1 == ite(c0 - g <= 0, m, c0 - g) && 0 <= i1 && i1 < len(r.servers) && r.servers[i1].weight >= c1 && below(r, -1, i1, c1)
 
+//@ pred sameID(a *url.URL, b *url.URL) = a.Path == b.Path && a.Host == b.Host && a.Scheme == b.Scheme
+//@ pred uniq(r *RoundRobin) = forall i int, j int :: 0 <= i && i < j && j < len(r.servers) ==> !sameID(r.servers[i].url, r.servers[j].url)
+//@ pred member(r *RoundRobin, u *url.URL) = exists i int :: 0 <= i && i < len(r.servers) && sameID(u, r.servers[i].url)
+//@ pred iterReset(r *RoundRobin) = r.index == -1 && r.currentWeight == 0
+
+//@ globalinv defaultWeight: defaultWeight >= 0
+
 //@ type RoundRobin
 //@   immutable mutex next errHandler stickySession requestRewriteListener verbose log
 //@   guarded_by mutex: index servers currentWeight
 //@   lockinv mutex (r): pool_ok: poolOK(r)
 //@   lockinv mutex (r): iter_ok: iterOK(r)
+//@   lockinv mutex (r): uniq: uniq(r)
 
 //@ type server
 //@   immutable url
@@ -76,3 +84,86 @@ package roundrobin
 //@   loop 1 invariant iterOK_old: (old(r.index) == -1 && old(r.currentWeight) == 0) || (0 <= old(r.index) && old(r.index) < len(r.servers) && old(r.currentWeight) >= 1 && r.servers[old(r.index)].weight >= old(r.currentWeight))
 //@   loop 1 invariant phase: (r.currentWeight == old(r.currentWeight) && old(r.index) <= r.index && r.index < len(r.servers) && below(r, old(r.index), r.index + 1, old(r.currentWeight)))
 //@     || ((old(r.index) == -1 || below(r, old(r.index), len(r.servers), old(r.currentWeight))) && r.currentWeight == ite(old(r.currentWeight) - gcd <= 0, maxWeight, old(r.currentWeight) - gcd) && r.currentWeight >= 1 && 0 <= r.index && r.index < len(r.servers) && below(r, -1, r.index + 1, r.currentWeight))
+
+// ---- C02: the pool is exactly what the add / update / remove calls define ----------------
+
+//@ functype roundrobin.ServerOption
+//@   params s
+//@   holds RoundRobin.mutex
+//@   requires s != nil && s.weight >= 0
+//@   modifies s.weight
+//@   ensures weight_nonneg: s.weight >= 0
+
+//@ func Weight$1
+//@   props C01 C02
+//@   holds RoundRobin.mutex
+//@   requires s != nil && s.weight >= 0
+//@   modifies s.weight
+//@   ensures weight_nonneg: s.weight >= 0
+//@   ensures set: result == nil ==> s.weight == w
+//@   ensures refused: result != nil ==> s.weight == old(s.weight) && w < 0
+
+//@ func (*RoundRobin).findServerByURL
+//@   props C02
+//@   holds r.mutex
+//@   requires poolOK(r) && u != nil
+//@   ensures both: (result0 == nil) <==> (result1 == -1)
+//@   ensures found: result0 != nil ==> 0 <= result1 && result1 < len(r.servers) && result0 == r.servers[result1] && sameID(u, result0.url) && (forall j int :: 0 <= j && j < result1 ==> !sameID(u, r.servers[j].url))
+//@   ensures notfound: result0 == nil ==> !member(r, u)
+//@   loop 1 invariant -1 <= rangeindex && rangeindex < len(r.servers)
+//@   loop 1 invariant forall j int :: 0 <= j && j <= rangeindex ==> !sameID(u, r.servers[j].url)
+
+//@ func (*RoundRobin).resetState
+//@   props C01 C02
+//@   holds r.mutex
+//@   modifies r.index, r.currentWeight
+//@   ensures iterReset(r)
+
+//@ func (*RoundRobin).RemoveServer
+//@   props C01 C02
+//@   atomic r.mutex
+//@   requires u != nil
+//@   modifies r.servers, r.index, r.currentWeight, elems(r.servers)
+//@   ensures unknown_fails: !old(member(r, u)) ==> result != nil
+//@   ensures known_succeeds: old(member(r, u)) ==> result == nil
+//@   ensures failure_changes_nothing: result != nil ==> len(r.servers) == old(len(r.servers)) && (forall i int :: 0 <= i && i < len(r.servers) ==> r.servers[i] == old(r.servers[i])) && r.index == old(r.index) && r.currentWeight == old(r.currentWeight)
+//@   ensures removed: result == nil ==> len(r.servers) == old(len(r.servers)) - 1 && !member(r, u) && iterReset(r)
+//@   ensures spliced: result == nil ==> (exists k int :: 0 <= k && k < old(len(r.servers)) && sameID(u, old(r.servers[k]).url) && (forall i int :: 0 <= i && i < k ==> r.servers[i] == old(r.servers[i])) && (forall i int :: k <= i && i < len(r.servers) ==> r.servers[i] == old(r.servers[i+1])))
+//@   ensures weights_kept: forall s *server :: allocated(s) ==> s.weight == old(s.weight)
+
+//@ func (*RoundRobin).UpsertServer
+//@   props C01 C02
+//@   atomic r.mutex
+//@   modifies r.servers, r.index, r.currentWeight, elems(r.servers), server.weight
+//@   ensures nil_url: u == nil ==> result != nil && len(r.servers) == old(len(r.servers)) && r.index == old(r.index) && r.currentWeight == old(r.currentWeight)
+//@   ensures success_member: result == nil ==> member(r, u) && iterReset(r)
+//@   ensures existing_keeps_slice: u != nil && old(member(r, u)) ==> len(r.servers) == old(len(r.servers)) && (forall i int :: 0 <= i && i < len(r.servers) ==> r.servers[i] == old(r.servers[i]))
+//@   ensures existing_other_weights: u != nil && old(member(r, u)) ==> (forall i int :: 0 <= i && i < len(r.servers) && !sameID(u, r.servers[i].url) ==> r.servers[i].weight == old(r.servers[i].weight))
+//@   ensures added: u != nil && !old(member(r, u)) && result == nil ==> len(r.servers) == old(len(r.servers)) + 1 && (forall i int :: 0 <= i && i < old(len(r.servers)) ==> r.servers[i] == old(r.servers[i]) && r.servers[i].weight == old(r.servers[i].weight)) && fresh(r.servers[len(r.servers)-1]) && fresh(r.servers[len(r.servers)-1].url) && sameID(u, r.servers[len(r.servers)-1].url)
+//@   ensures failed_add: u != nil && !old(member(r, u)) && result != nil ==> len(r.servers) == old(len(r.servers)) && (forall i int :: 0 <= i && i < len(r.servers) ==> r.servers[i] == old(r.servers[i]) && r.servers[i].weight == old(r.servers[i].weight)) && r.index == old(r.index) && r.currentWeight == old(r.currentWeight)
+//@   loop 1 invariant s != nil && s.weight >= 0 && sameID(u, s.url) && (exists k int :: 0 <= k && k < len(r.servers) && s == r.servers[k])
+//@   loop 1 invariant len(r.servers) == old(len(r.servers)) && (forall i int :: 0 <= i && i < len(r.servers) ==> r.servers[i] == old(r.servers[i]))
+//@   loop 1 invariant forall i int :: 0 <= i && i < len(r.servers) && r.servers[i] != s ==> r.servers[i].weight == old(r.servers[i].weight)
+//@   loop 1 invariant r.index == old(r.index) && r.currentWeight == old(r.currentWeight)
+//@   loop 2 invariant srv != nil && fresh(srv) && srv.weight >= 0 && srv.url != nil && fresh(srv.url) && sameID(u, srv.url)
+//@   loop 2 invariant len(r.servers) == old(len(r.servers)) && (forall i int :: 0 <= i && i < len(r.servers) ==> r.servers[i] == old(r.servers[i]) && r.servers[i].weight == old(r.servers[i].weight))
+//@   loop 2 invariant r.index == old(r.index) && r.currentWeight == old(r.currentWeight)
+
+//@ func (*RoundRobin).Servers
+//@   props C02 C11
+//@   atomic r.mutex
+//@   ensures snapshot: len(result) == len(r.servers) && (forall i int :: 0 <= i && i < len(result) ==> result[i] == r.servers[i].url)
+//@   loop 1 invariant -1 <= rangeindex && rangeindex < len(r.servers) && len(out) == len(r.servers) && fresh(out)
+//@   loop 1 invariant forall i int :: 0 <= i && i <= rangeindex ==> out[i] == r.servers[i].url
+
+//@ func (*RoundRobin).NextServer
+//@   props C01 C02
+//@   modifies r.index, r.currentWeight
+//@   ensures empty_pool_fails: len(r.servers) == 0 ==> result1 != nil && result0 == nil
+//@   ensures fresh_copy: result1 == nil ==> result0 != nil && fresh(result0) && member(r, result0)
+//@   ensures positive_weight: result1 == nil ==> (exists i int :: 0 <= i && i < len(r.servers) && sameID(result0, r.servers[i].url) && r.servers[i].weight >= 1)
+
+//@ func SetDefaultWeight
+//@   props C01 C02
+//@   modifies everything
+//@   ensures result == nil ==> defaultWeight == weight
